@@ -336,9 +336,20 @@ def explore_histories(rec, initial, menu, K, check_fn, env, max_states_per_level
         total_states += len(nxt)
         if len(nxt) > max_states_per_level:
             rec.notes["history_states_dropped_by_cap"] = rec.notes.get("history_states_dropped_by_cap", 0) + len(nxt) - max_states_per_level
-            # keep a structurally diverse subset: stable order, every k-th
-            step = len(nxt) / max_states_per_level
-            nxt = [nxt[int(i * step)] for i in range(max_states_per_level)]
+            # keep a diverse subset: round-robin over the kind of the last operations
+            groups = {}
+            for st in nxt:
+                hk = tuple((h["op"], bool(h["params"].get("discard"))) for h in st[1][-2:])
+                groups.setdefault(hk, []).append(st)
+            picked = []
+            keys = sorted(groups, key=str)
+            i = 0
+            while len(picked) < max_states_per_level and any(groups.values()):
+                g = groups[keys[i % len(keys)]]
+                if g:
+                    picked.append(g.pop(0))
+                i += 1
+            nxt = picked
         level = nxt
         if not level:
             break
